@@ -11,7 +11,7 @@ import (
 )
 
 func init() {
-	register(&PropDef{ID: "C16", Level: "exploration", Gen: genC16, Check: checkC16})
+	register(&PropDef{ID: "C16", Stalls: true, Level: "exploration", Gen: genC16, Check: checkC16})
 	register(&PropDef{ID: "C17", Level: "exploration", Gen: genC17, Check: checkC17})
 }
 
